@@ -24,6 +24,8 @@ const builtinPrelude = `
 (declare-fun i2w64 (Int) (_ BitVec 64))
 (declare-fun w2i64 ((_ BitVec 64)) Int)
 (assert (forall ((x Int)) (! (= (int.or x 0) x) :pattern ((int.or x 0)))))
+(assert (forall ((x (_ BitVec 32))) (! (and (<= 0 (w2i32 x)) (< (w2i32 x) 4294967296)) :pattern ((w2i32 x)))))
+(assert (forall ((x (_ BitVec 64))) (! (and (<= 0 (w2i64 x)) (< (w2i64 x) 18446744073709551616)) :pattern ((w2i64 x)))))
 `
 
 // PreludeOpaque: the full prelude, except that the named spec functions are declared instead of defined
